@@ -120,6 +120,24 @@ pub fn check_c01(cx: &mut Ctx<'_, '_>) {
         None => cx.viol("C01", "verdict:no-suite-line", "libtest output has no suite result line".into(), json!(null)),
     }
 
+    // FailOnSkipped<Normalize<Libtest>>
+    let buf = SharedBuf::default();
+    let mut w = writer::Libtest::<TW, SharedBuf>::new(buf.clone()).fail_on_skipped();
+    feed(&mut w, items, &lcli);
+    results.push(("FailOnSkipped<Normalize<Libtest>>", true, Stats::<TW>::execution_has_failed(&w)));
+    if let Some(v) = libtest_suite_verdict(&buf.text()) {
+        results.push(("FailOnSkipped<Normalize<Libtest>> suite line", true, v));
+    }
+
+    // FailOnSkipped<Tee<Summarize.., Libtest>>
+    let mut w = writer::Tee::new(
+        writer::Basic::new::<TW>(SharedBuf::default(), Coloring::Never, 0).summarized(),
+        writer::Libtest::<TW, SharedBuf>::new(SharedBuf::default()),
+    )
+    .fail_on_skipped();
+    feed(&mut w, items, &cli::Compose { left: bcli, right: lcli.clone() });
+    results.push(("FailOnSkipped<Tee<Summarize.., Libtest>>", true, Stats::<TW>::execution_has_failed(&w)));
+
     // Tee(Summarize.., Libtest)
     let mut w = writer::Tee::new(
         writer::Basic::new::<TW>(SharedBuf::default(), Coloring::Never, 0).summarized(),
